@@ -8,6 +8,10 @@
      ExX n            dst.Exists(n) returned an error        (injected before or after the real call,
                                                                or the store's own / the context's error)
      SFX n            src.Fetch(n) returned an error          (proxy fetch of a manifest, or doCopyNode's fetch)
+     SRX n            Read() of the stream fetched for the manifest n failed while the proxy was reading it
+                      for FindSuccessors (cas.Proxy.Fetch / content.FetchAll): the reader is still open
+                      (FetchAll's deferred Close follows).  A read error while a destination Push / Mount
+                      consumes the stream is reported by that operation (PuX / MtX, nothing stored)
      PuX n ref stored dst.Push / PushReference(n) returned an error; stored = the content was
                       stored before the error was returned (fault AFTER the side effect)
      MtX n stored     dst.Mount(n) (registry.Mounter, one candidate repository) returned an error, either
@@ -51,6 +55,7 @@ Inductive fevent :=
 | Ev (e : event)
 | ExX (n : node)
 | SFX (n : node)
+| SRX (n : node)
 | PuX (n : node) (ref stored : bool)
 | TagX (n : node) (set : bool)
 | MtX (n : node) (stored : bool)
@@ -135,6 +140,11 @@ Definition fstep (g : graph) (c : cfg) (ext : bool) (fs : fstate) (fe : fevent) 
         | MF1 | F1 _ | MtF1 => Some (with_base fs (set_ph st n Dead))
         | _ => None
         end
+    | SRX n =>
+        match ph st n with
+        | MF2 => Some (mkF (set_ph st n Dead) (f_cancelled fs) (f_aborted fs) true (n :: f_rd fs))
+        | _ => None
+        end
     | PuX n ref stored =>
         if negb (Bool.eqb ref (root_refpush c n)) then None else
         match ph st n with
@@ -183,7 +193,7 @@ Definition faccepts (g : graph) (c : cfg) (ext : bool) (d0 : list node) (tr : li
 (* the events the property calls faults *)
 Definition is_fault (fe : fevent) : bool :=
   match fe with
-  | Ev (CbFail _ _) | ExX _ | SFX _ | PuX _ _ _ | TagX _ _ | MtX _ _ | ProX | Cancel => true
+  | Ev (CbFail _ _) | ExX _ | SFX _ | SRX _ | PuX _ _ _ | TagX _ _ | MtX _ _ | ProX | Cancel => true
   | _ => false
   end.
 
